@@ -352,8 +352,11 @@ theorem push_complete (ext : Ext) : ∀ (x : SVal), noRaw x = true → Comp ext 
   | .unitStruct x, _ => by
     intro b dt n md lv hg hr hi
     rw [interpDT] at hi
-    obtain ⟨b', hb', hroom⟩ := scalarValue_complete hg hr hi
-    exact ⟨b', by rw [push]; exact hb', hroom⟩
+    obtain ⟨b', h1, h2⟩ := pushNone_complete b dt n md lv hg.wf hg.shape hg.tot hi
+    refine ⟨b', ?_, by rw [h2]; omega⟩
+    cases b with
+    | unknownVariant p => simp [pushNone, ctx_ok, fail] at h1
+    | _ => simp only [push]; exact h1
 
 theorem pushElems_complete (ext : Ext) : ∀ (xs : SVals), noRaws xs = true →
     ElemsComp ext xs (fun large el offs => pushElems ext large el offs xs)
